@@ -212,7 +212,7 @@ pub fn crash_explore_mode(o: &mut Outcome, plans: &[Plan], deadline: Instant, q:
     let outcomes: Mutex<BTreeSet<u64>> = Mutex::new(BTreeSet::new());
     let samples: Mutex<Vec<serde_json::Value>> = Mutex::new(vec![]);
 
-    let (done, timed_out) = par_for(jobs.len(), threads(), deadline, |ji| {
+    let (done, timed_out) = crate::par::par_for_core(jobs.len(), required, threads(), deadline, |ji| {
         let (pi, prog) = &jobs[ji];
         let pl = &plans[*pi];
         let mut full: Vec<Op> = prefix(pl.prefix);
